@@ -86,6 +86,7 @@ type Prov struct {
 	Results  []TypeID
 	Err      bool `json:",omitempty"`
 	FuncVar  bool `json:",omitempty"` // Form func: declared as a package-level function variable, var NewX = func(...) ...
+	FuncVarType string `json:",omitempty"` // FuncVar: "" | named (type NewXFunc func(...); var NewX NewXFunc = ...) | alias (type NewXFunc = func(...))
 	ErrAlias bool `json:",omitempty"` // the error result is spelled Failure (type Failure = error)
 	Variadic bool `json:",omitempty"` // last parameter is ...Elem(of slice type in Params)
 	Method   bool `json:",omitempty"` // Form ext: referenced as a method value of a package-level variable (pkg.Factory.Name)
